@@ -21,6 +21,7 @@ mod cdisp;
 mod handenum;
 mod trunc;
 mod mpart;
+pub mod deep;
 pub mod wire;
 pub mod xmatrix;
 
@@ -75,6 +76,7 @@ fn run_inner(name: &str, tier: &str) -> Option<Value> {
         "handenum" => handenum::run(tier).to_json(),
         "trunc" => trunc::run(tier).to_json(),
         "mpart" => mpart::run(tier).to_json(),
+        "deep" => deep::run(tier).to_json(),
         _ => return None,
     })
 }
